@@ -293,6 +293,24 @@ class Session:
             goal = z3.And([zbool(g) if isinstance(g, Sym) else (z3.BoolVal(g) if isinstance(g, bool) else g) for g in goal]) if goal else True
         self.ctx.oblige(f"{self.prefix}/{kind}:{label}", goal, hyps, kind)
 
+    def lemma(self, label, goal, hyps=()):
+        """prove `hyps => goal` as its own obligation, then use it (hint for nonlinear arithmetic)"""
+        self.ensure(label, goal, hyps, kind="lemma")
+        if hyps:
+            goal = z3.Implies(z3.And(list(hyps)), goal)
+        self.ctx.assume(goal)
+
+    def abstract_field(self, obj, field, name, facts):
+        """modular step: replace a computed field by a fresh constant about which only the (already
+        proved) characterisation `facts(fresh)` is known"""
+        old = self.I.getattr(obj, field)
+        fresh = Sym(z3.Int(name), "int")
+        f = facts(fresh.t)
+        self.ensure(f"characterisation-of-{field}", facts(zint(old)), kind="lemma")
+        self.ctx.assume(f)
+        obj.f[field] = fresh
+        return fresh
+
     def ensure_raises(self, label, thunk, kinds):
         """the call must raise one of `kinds` on this path"""
         from .interp import RaisedEx
